@@ -203,15 +203,25 @@ void h_insert_bounded(void) {
   h_init();
   unsigned n = list_build();
   intrusive_heap_insert_full(&H, &IT);
-  /* global postcondition: the old list with the item inserted once; sorted; the item behind every equal key (FIFO ties); all back links consistent */
-  item_t* it = H.head_; item_t* prev = NULL; unsigned k = 0, seen = 0, idx = 0; _Bool ok = 1;
-  while (it != NULL && k <= NB + 1) {
-    ok = ok && (it->timerPrev_ == prev);
-    if (it == &IT) { seen++; ok = ok && (idx == n || IT.dueTime_ < Q[idx].dueTime_) && (idx == 0 || Q[idx - 1].dueTime_ <= IT.dueTime_); }
-    else { ok = ok && (idx < n && it == &Q[idx]); idx++; }
-    prev = it; it = it->timerNext_; k++;
+  /* global postcondition, stated position-wise: the item sits at position pos of the new list (pos = number of old items in
+   * front of it); every old item keeps its place relative to the others (permutation: old list + the item exactly once); every
+   * forward and backward link is the one that sequence demands; the keys around the item are  <= item < : sorted, and the item
+   * is behind every old item with an equal due time (FIFO among ties) */
+  unsigned pos = NB + 1;
+  if (H.head_ == &IT) pos = 0;
+  for (unsigned i = 0; i < NB; i++) { if (i < n && Q[i].timerNext_ == &IT) pos = i + 1; }
+  _Bool ok = pos <= n;
+  ok = ok && H.head_ == (pos == 0 ? &IT : &Q[0]);
+  for (unsigned i = 0; i < NB; i++) {
+    if (i < n) {
+      item_t* en = (i + 1 == pos) ? &IT : ((i + 1 < n) ? &Q[i + 1] : NULL);
+      item_t* ep = (i == pos) ? &IT : (i ? &Q[i - 1] : NULL);
+      ok = ok && Q[i].timerNext_ == en && Q[i].timerPrev_ == ep;
+      ok = ok && (i < pos ? Q[i].dueTime_ <= IT.dueTime_ : IT.dueTime_ < Q[i].dueTime_);
+    }
   }
-  VF_P(ok && seen == 1 && idx == n && it == NULL && k == n + 1, "bounded global check: after insert the list is the old list plus the item exactly once, sorted, the item behind all equal due times, every back link consistent");
+  ok = ok && IT.timerNext_ == ((pos < n) ? &Q[pos < NB ? pos : 0] : NULL) && IT.timerPrev_ == (pos ? &Q[pos - 1 < NB ? pos - 1 : 0] : NULL);
+  VF_P(ok, "bounded global check: after insert the list is the old list plus the item exactly once, sorted, the item behind all equal due times, every back link consistent");
   VF_CANARY("after bounded insert");
   if (n == NB) { VF_CANARY("longest list reachable"); }
 }
